@@ -187,7 +187,7 @@ func (r *Run) Violation(key, what string, witness interface{}) {
 	}
 	r.vioKeys[key]++
 	r.violations++
-	if r.vioKeys[key] > 2 || r.violations > 12 {
+	if r.vioKeys[key] > 2 || len(r.vioKeys) > 40 {
 		return // enough witnesses of this kind on disk
 	}
 	dir := filepath.Join(r.Root, "evidence", "replay")
